@@ -105,7 +105,7 @@ def scenarios():
             for (t0, dur, val) in control:
                 pc.add_rule(ConstantPWM(Timer(Time(t0, "sec"), TimeInterval(dur, "sec")), pt, val))
             kw["motor_control"] = pc
-        sched = [(TimeInterval(0.01, "sec"), TimeInterval(0.6, "sec"), dict(kw)), (TimeInterval(20, "ms"), TimeInterval(200, "ms"), dict(kw))]
+        sched = [(TimeInterval(0.001, "sec"), TimeInterval(0.6, "sec"), dict(kw)), (TimeInterval(2, "ms"), TimeInterval(100, "ms"), dict(kw))]
         return dict(pt=pt, solver=Solver(pt), motor=m, last=g, load=load, schedule=sched)
 
     def amp_stop():
